@@ -18,7 +18,7 @@ def model_agrees(out, model):
     return len(a) == len(b) and all(x == y or y == 'err:unmodelled' for x, y in zip(a, b))
 
 def call(f):
-    k, v = guarded(f, 20.0)
+    k, v = guarded(f, 5.0)
     return v if k == 'ok' else 'err:' + v
 
 def impl(line):
@@ -117,14 +117,18 @@ def gen(props, tier, rng):
             pool = []
             rules_all = []
             ids = rulegen.prefix_free_codes(rng, 12, maxlen=8)
-            for k in range(4):
+            for k in range(3):
                 data, pkt = rulegen.gen_stack(rng, stack)
                 pool.append('L:' + packets.bits_of(data))
-                r = schcstream.stack_rule(rng, pkt, ids[2 * k], compute_prob=0.4)
-                if rng.random() < 0.6: r = schcstream._with_directions(rng, r, pkt)   # Up/Dw specific descriptors: direction matters
-                rules_all.append(schcstream.sanitize(r))
-                # a more generic rule placed before a better one: FIRST and BEST differ
-                g = {'id': abuf(ids[2 * k + 1]), 'nature': 'c', 'fields': [rulegen.derive_rfield(rng, f, pairing=('ig', 'vs'), variable=False) for f in pkt['fields']]}
+                # one rule per direction for this packet (descriptors of that direction or Bi), different gains
+                for j, dd in enumerate('UD'):
+                    r = schcstream.stack_rule(rng, pkt, ids[3 * k + j], compute_prob=0.4)
+                    for f in r['fields']:
+                        if rng.random() < 0.5: f['dir'] = dd
+                    if r['fields']: r['fields'][0]['dir'] = dd
+                    rules_all.insert(rng.randrange(len(rules_all) + 1), schcstream.sanitize(r))
+                # a more generic rule placed somewhere: FIRST and BEST differ
+                g = {'id': abuf(ids[3 * k + 2]), 'nature': 'c', 'fields': [rulegen.derive_rfield(rng, f, pairing=('ig', 'vs'), variable=False) for f in pkt['fields']]}
                 rules_all.insert(rng.randrange(len(rules_all) + 1), g)
             if rng.random() < 0.7: rules_all.append(rulegen.default_rule(ids[10]))
             ops = []
@@ -139,7 +143,7 @@ def gen(props, tier, rng):
                         schcs.append('R:' + rulegen.rbits(rng, rng.randrange(1, 200)))
                     if len(schcs) < 8:
                         # a genuine SCHC packet of this rule set (computed by the reference; any bit string is fine for the history check)
-                        schcs.append('R:' + ids[rng.randrange(0, 8)] + rulegen.rbits(rng, rng.randrange(0, 120)))
+                        schcs.append('R:' + ids[rng.randrange(0, 9)] + rulegen.rbits(rng, rng.randrange(0, 120)))
             yield f"hist manager {esc(stack)} {e_rules(rules_all)} {len(ops)} {' '.join(ops)} # {tags}"
     if props & {'C16', 'C04', 'C18'}:
         for h in range(H * 2):
